@@ -436,6 +436,41 @@ func (s *Solver) refInt(t *Term) string {
 		}
 		s.send(fmt.Sprintf("(define-fun %s () Int %s)", name, wrapS(res, w)))
 		return name
+	case OpBvUdiv:
+		body = wrapS(fmt.Sprintf("(div %s %s)", uns(t.Args[0]), uns(t.Args[1])), w)
+	case OpBvUrem:
+		body = wrapS(fmt.Sprintf("(mod %s %s)", uns(t.Args[0]), uns(t.Args[1])), w)
+	case OpBvShl, OpBvLshr, OpBvAshr:
+		if !t.Args[1].IsConst() {
+			panic(fmt.Sprintf("Int rendering: %v by a symbolic amount not expressible", opName[t.Op]))
+		}
+		k := int(t.Args[1].Val.Int64())
+		if k >= w {
+			k = w
+		}
+		switch t.Op {
+		case OpBvShl:
+			body = wrapS(fmt.Sprintf("(* %s %s)", s.ref(t.Args[0]), pow2(k)), w)
+		case OpBvLshr:
+			body = wrapS(fmt.Sprintf("(div %s %s)", uns(t.Args[0]), pow2(k)), w)
+		default:
+			body = fmt.Sprintf("(div %s %s)", s.ref(t.Args[0]), pow2(k))
+		}
+	case OpBvAnd:
+		// only masks of the form 2^k-1 (low bits) are expressible
+		m := t.Args[1]
+		x := t.Args[0]
+		if !m.IsConst() {
+			m, x = x, m
+		}
+		if !m.IsConst() {
+			panic("Int rendering: operator bvand of two symbolic operands not expressible")
+		}
+		mv := new(big.Int).Add(m.Val, big.NewInt(1))
+		if mv.BitLen() == 0 || new(big.Int).And(mv, m.Val).Sign() != 0 {
+			panic("Int rendering: bvand with a mask that is not 2^k-1 not expressible")
+		}
+		body = wrapS(fmt.Sprintf("(mod %s %s)", uns(x), mv.String()), w)
 	case OpBvUlt:
 		body = fmt.Sprintf("(< %s %s)", uns(t.Args[0]), uns(t.Args[1]))
 	case OpBvUle:
